@@ -261,6 +261,28 @@ func (cl *Cluster) fillFetch(fp *FetchPart, p *Partition, b sarama.VerifFetchBlo
 }
 
 func (cl *Cluster) offsetVariants(r *Req, req *sarama.OffsetRequest) []gx.Variant {
+	vs := cl.offsetOK(r, req)
+	for _, f := range cl.OffsetFaults {
+		switch f {
+		case "notleader":
+			vs = append(vs, cl.wrap(r, "Offset", f, func() {
+				res := &sarama.OffsetResponse{Version: req.Version}
+				for _, b := range sarama.VerifOffsetBlocks(req) {
+					res.AddTopicPartition(b.Topic, b.Partition, -1)
+					res.Blocks[b.Topic][b.Partition].Err = sarama.ErrNotLeaderForPartition
+				}
+				cl.Respond(r, res)
+			}))
+		case "drop":
+			vs = append(vs, cl.wrap(r, "Offset", f, func() { cl.drop(r.Conn) }))
+		default:
+			panic("unknown offset fault " + f)
+		}
+	}
+	return vs
+}
+
+func (cl *Cluster) offsetOK(r *Req, req *sarama.OffsetRequest) []gx.Variant {
 	return []gx.Variant{cl.wrap(r, "Offset", "ok", func() {
 		res := &sarama.OffsetResponse{Version: req.Version}
 		for _, b := range sarama.VerifOffsetBlocks(req) {
